@@ -225,7 +225,7 @@ def _median_with_nan(values, *args, **kwargs):
         result = np.median(values, *args, **kwargs)
 
     if anynan(values):
-        if np.size(result) == 1: 
+        if np.ndim(result) == 0: # scalar result (a one-element array keeps its shape)
             result = np.nan
         else:
             axis = kwargs.pop('axis', None)
